@@ -49,7 +49,6 @@ def lruOp (j : Json) : Json :=
     ("hostname", jchars (pyHostname p.netloc)),
     ("wf", jbool (wfParts p)),
     ("wf_sa", jbool (wfHostSA p.netloc)),
-    ("psl_host_ok", jbool (pslHostOK (specHost p.netloc))),
     ("nobar", jbool (noBar p)),
     ("spec_host", jchars (specHost p.netloc)),
     ("spec_port", jopt ((specPort p.netloc).map jchars)),
